@@ -603,6 +603,10 @@ def part_accepted_compiles(chk, thorough):
                 ("TryInto", "enum S { A(Vec<$t1>), B(Vec<%s>), Cc }" % _C1), ("TryInto", "#[try_into(owned, ref, ref_mut)] enum S { A(Option<$t1>, $t2), B(Option<%s>, %s) }" % (_C1, _C2)),
                 ("AsRef", "struct S($d1);"), ("AsMut", "struct S($d1);"), ("AsRef", "struct S($d);"), ("AsMut", "struct S($d);"), ("AsRef", "struct S { a: u8, #[as_ref] b: $d }"),
                 ("Into", "#[into(ref, ref_mut)] struct S($d);"), ("Into", "#[into(ref)] struct S(Box<$d>, $t1);"), ("From", "struct S(Box<$d>);"), ("Deref", "struct S(Box<$d>);"),
+                # ... a trait-object fragment behind a reference or a raw pointer written in the macro body (several bounds; one trait and a lifetime)
+                ] + [(d, it) for it in ("struct S(&'static $d);", "struct S(&'static $dl);", "struct S<'a>(&'a mut $d, u8);", "struct S(*const $dl);", "struct S { a: &'static mut $dl, b: *mut $d }",
+                                        "enum S { A(&'static $dl), B(u8) }")
+                     for d in ("AsRef", "Constructor", "Debug", "From", "Into", "Deref", "Unwrap", "TryInto", "IsVariant")] + [
                 ("AsRef", "struct S<T>(#[as_ref(T)] $tp);"), ("AsMut", "struct S<T>(#[as_mut(T)] $tp);"), ("AsRef", "struct S<T>(#[as_ref(Vec<T>)] Vec<$tp>);"),
                 ("From", "#[from(Vec<$t1>)] struct S(Vec<%s>);" % _C1), ("Into", "#[into(Vec<$t1>)] struct S(Vec<%s>);" % _C1), ("AsRef", "#[as_ref(Vec<$t1>)] struct S(Vec<%s>);" % _C1),
                 # ... a fragment in the ATTRIBUTE that equals the field's type: the direct form, usable for every T
@@ -617,8 +621,8 @@ def part_accepted_compiles(chk, thorough):
                      for d in ("From", "Into", "AsRef", "Deref", "DerefMut", "Constructor", "Debug", "TryInto", "Unwrap", "IsVariant", "Index", "IntoIterator")]
     def macro_twin(cid, d, prefix, item):
         body = "%s#[derive(derive_more::%s)] %s" % (prefix, d, item)
-        pars = "$t1:ty, $t2:ty, $t3:ty, $e:expr, $d1:ty, $d:ty, $tp:ty"
-        args = "%s, %s, (%s, %s), 1 + 1, dyn ::core::fmt::Debug, dyn ::core::fmt::Debug + Send, T" % (_C1, _C2, _C1, _C2)
+        pars = "$t1:ty, $t2:ty, $t3:ty, $e:expr, $d1:ty, $d:ty, $tp:ty, $dl:ty"
+        args = "%s, %s, (%s, %s), 1 + 1, dyn ::core::fmt::Debug, dyn ::core::fmt::Debug + Send, T, dyn ::core::fmt::Debug + 'static" % (_C1, _C2, _C1, _C2)
         mod = "#[allow(unused_imports)] use super::*;\nmacro_rules! mk { (%s) => { %s } }\nmk!(%s);" % (pars, body, args)
         return Case(cid, mod, has_run=False, meta=dict(derive=d, src="macro_rules! mk { (%s) => { %s } } mk!(%s);" % (pars, body, args)))
     for c in cases:
@@ -627,7 +631,7 @@ def part_accepted_compiles(chk, thorough):
             mcases.append(macro_twin("m%d" % len(mcases), c.meta["derive"], PREREQ.get(c.meta["derive"], ""), item))
     # the hand-placed ones: their directly written twin (fragments substituted as text, an expression in parentheses) is compiled
     # along; only where THAT compiles is the macro-generated one judged
-    subst = [("$t1", _C1), ("$t2", _C2), ("$t3", "(%s, %s)" % (_C1, _C2)), ("$e", "(1 + 1)"), ("$d1", "dyn ::core::fmt::Debug"), ("$d", "dyn ::core::fmt::Debug + Send"), ("$tp", "T")]
+    subst = [("$t1", _C1), ("$t2", _C2), ("$t3", "(%s, %s)" % (_C1, _C2)), ("$e", "(1 + 1)"), ("$d1", "dyn ::core::fmt::Debug"), ("$dl", "dyn ::core::fmt::Debug + 'static"), ("$d", "dyn ::core::fmt::Debug + Send"), ("$tp", "T")]
     direct = {}
     for d, item in specials:
         m = macro_twin("m%d" % len(mcases), d, PREREQ.get(d, ""), item)
@@ -635,7 +639,7 @@ def part_accepted_compiles(chk, thorough):
         txt = item
         for a, b in subst:
             txt = re.sub(re.escape(a) + r"\b", lambda _m: b, txt)
-        txt = re.sub(r"&\s*(mut\s+)?dyn ::core::fmt::Debug \+ Send", lambda mm: "&%s(dyn ::core::fmt::Debug + Send)" % (mm.group(1) or ""), txt)
+        txt = re.sub(r"(&\s*(?:'\w+\s+)?(?:mut\s+)?|\*const\s+|\*mut\s+)(dyn ::core::fmt::Debug \+ (?:Send|'static))", lambda mm: "%s(%s)" % (mm.group(1), mm.group(2)), txt)
         direct[m.cid] = Case("d" + m.cid, "#[allow(unused_imports)] use super::*;\n%s#[derive(derive_more::%s)] %s" % (PREREQ.get(d, ""), d, txt), has_run=False)
     meng = CompileEngine("C01M", header=HEADER, prelude=PRELUDE, mode="check", per_bin=max(20, len(mcases) // 16 + 1))
     mres = meng.run_cases(mcases + list(direct.values()))
